@@ -372,6 +372,7 @@ def main():
     m = merge_stats(stats)
     ck.coverage.update(states=m['states'], transitions=m['transitions'] + cover['kfault-reexecutions'] + n_hs,
                        max_depth=m['max_depth'], traces_validated_against_impl=m['replays_validated'],
+                       traces_replayed_with_the_event_loop_never_left=m.get('continuous_validated', 0),
                        caps_hit=m['caps_hit'], exhaustive=m['completed'], records_scanned=cover['records-scanned'],
                        kernel_fault_reexecutions=cover['kfault-reexecutions'], failing_handshake_steps=n_hs,
                        secrets_known=nsecrets, secret_kinds_found_in_debug_run=dict(found), per_scenario=stats,
